@@ -750,23 +750,72 @@ func ruleC10SideTableKeys(c *Ctx) {
 	c.R.OK(rule, "keys-in-universe", "", fmt.Sprintf("%d of %d dereferenced side-table lookups are keyed by a traversed schema, a parameter, the root, a base, a stack entry or a side-table entry; the foreign-root case is C10/foreign-tables-merged", nOK, n))
 }
 
-// recursive components and their termination arguments
-var recursionShapes = map[string]string{
-	"(*state).validate":                 "structural descent: each cycle through the evaluator passes an evaluation site; termination for schemas is by the checked tree (C10/tree-check) and, for $ref cycles, by the property's proviso (recursion through an instance-descending keyword)",
-	"(*state).applyDefaults":            "structural descent over Properties of the checked schema tree (C10/tree-check)",
-	"schemaHasDefaultsInProperties":     "structural descent over Properties of the checked schema tree (C10/tree-check)",
-	"(*Schema).every":                   "structural descent over the checked schema tree (C10/tree-check dominates every traversal in Resolve)",
-	"(*Schema).CloneSchemas":            "structural descent over a schema tree (cyclic Schema graphs are outside CloneSchemas' contract and are rejected by Resolve)",
-	"(*Schema).checkStructure$1":        "seen table: C10/tree-check",
-	"forType":                           "seen set for named types, strict descent of a finite type term otherwise: C10/type-cycle",
-	"(*resolver).resolve":               "memoised loader: C10/cache-before-recursion",
-	"equalValue":                        "structural descent over finite data (documented: values must not contain cycles)",
-	"hashValue$2":                       "structural descent over finite data",
-	"jsonNames":                         "descent over the embedded fields of two fixed wrapper types",
-	"resolveURIs$2":                     "structural descent over the checked schema tree",
-	"(*Schema).UnmarshalJSON":           "descent over the finite input document (through encoding/json)",
-	"Schema.MarshalJSON":                "descent over the schema tree (through encoding/json)",
-	"orderedProperties.MarshalJSON":     "descent over the schema tree (through encoding/json)",
+// recursive components and their termination arguments, keyed by role (resolved
+// by type and reachability, not by name) or by exported API name.
+func (c *Ctx) recursionShapes(rule string) map[*ssa.Function]string {
+	out := map[*ssa.Function]string{}
+	add := func(fn *ssa.Function, why string) {
+		if fn != nil {
+			out[fn] = why
+		}
+	}
+	add(c.Evaluator(rule), "structural descent: each cycle through the evaluator passes an evaluation site; termination for schemas is by the checked tree (C10/tree-check) and, for $ref cycles, by the property's proviso (recursion through an instance-descending keyword)")
+	if m := c.defaultsModel(rule); m != nil {
+		add(m.apply, "structural descent over Properties of the checked schema tree (C10/tree-check)")
+		add(m.pred, "structural descent over Properties of the checked schema tree (C10/tree-check)")
+	}
+	add(c.inferFn(rule), "seen set for named types, strict descent of a finite type term otherwise: C10/type-cycle")
+	if rm := c.resolverModel(rule); rm != nil {
+		add(rm.docFn, "memoised loader: C10/cache-before-recursion")
+		add(rm.refFn, "memoised loader: C10/cache-before-recursion")
+	}
+	add(c.Equality(rule), "structural descent over finite data (documented: values must not contain cycles)")
+	if h := c.Hasher(rule); h != nil {
+		for _, f := range core.WithAnon(h) {
+			add(f, "structural descent over finite data")
+		}
+	}
+	add(c.nameSetFn(rule), "descent over the embedded fields of two fixed wrapper types")
+	// exported API (stable names)
+	add(c.fn("(*Schema).CloneSchemas"), "structural descent over a schema tree (cyclic Schema graphs are outside CloneSchemas' contract and are rejected by Resolve)")
+	add(c.fn("(*Schema).UnmarshalJSON"), "descent over the finite input document (through encoding/json)")
+	add(c.fn("Schema.MarshalJSON"), "descent over the schema tree (through encoding/json)")
+	// tree traversals of *Schema: methods taking func(*Schema) bool
+	for _, fn := range c.P.Funcs {
+		if fn.Parent() == nil && fn.Signature.Recv() != nil && c.isPkgNamed(fn.Signature.Recv().Type(), "Schema") && fn.Signature.Params().Len() == 1 {
+			if sig, ok := fn.Signature.Params().At(0).Type().Underlying().(*types.Signature); ok && sig.Params().Len() == 1 && c.isPkgNamed(sig.Params().At(0).Type(), "Schema") {
+				for _, f := range core.WithAnon(fn) {
+					add(f, "structural descent over the checked schema tree (C10/tree-check dominates every traversal in Resolve)")
+				}
+			}
+		}
+	}
+	// closures of the resolution pipeline that descend the checked tree: the structure check itself and URI assignment
+	for _, fn := range c.Closure(rule, "RES").Sorted() {
+		if fn.Parent() == nil {
+			continue
+		}
+		usesSeen, storesBase := false, false
+		core.EachInstr(fn, func(i ssa.Instruction) {
+			switch x := i.(type) {
+			case *ssa.Lookup:
+				if c.isMapTo(x.X.Type(), "resolvedInfo") && x.CommaOk {
+					usesSeen = true
+				}
+			case *ssa.Store:
+				if fa, ok := x.Addr.(*ssa.FieldAddr); ok && c.fieldName(fa.X.Type(), fa.Field) == "resolvedInfo.base" {
+					storesBase = true
+				}
+			}
+		})
+		if usesSeen && len(fn.Params) > 0 && tReflectValue(fn.Params[0].Type()) {
+			add(fn, "seen table: C10/tree-check")
+		}
+		if storesBase {
+			add(fn, "structural descent over the checked schema tree (URI assignment)")
+		}
+	}
+	return out
 }
 
 func ruleC10Recursion(c *Ctx) {
@@ -836,13 +885,17 @@ func ruleC10Recursion(c *Ctx) {
 			strong(fn)
 		}
 	}
+	shapes := c.recursionShapes(rule)
 	for _, comp := range sccs {
 		var names []string
 		shape := ""
 		for _, f := range comp {
 			n := core.FuncName(originOf(f))
 			names = append(names, n)
-			if s, ok := recursionShapes[n]; ok {
+			if s, ok := shapes[f]; ok {
+				shape = s
+			}
+			if s, ok := shapes[originOf(f)]; ok {
 				shape = s
 			}
 		}
